@@ -33,7 +33,7 @@ pub broadcast group group_asref_std {
     ax_asref_vec_slice, ax_asref_vec_vec, ax_asref_slice_slice, ax_asref_array_slice, ax_asref_str_bytes, ax_asref_str_str,
     ax_asref_string_str, ax_asref_string_bytes, ax_asref_ref
 }
-pub broadcast group group_glue { group_asref_std, crate::serde_json::ax_json_roundtrip, crate::serde::ax_json_str, crate::serde::ax_json_string, crate::time::ax_rfc3339_text_parses, ax_str_key_removed, ax_str_key_contains, ax_str_key_maps, lemma_utf8_valid, lemma_utf8_inj, ax_into_identity_obeys, ax_into_some_obeys, ax_asref_box, ax_into_identity, ax_into_some, ax_string_view_inj, ax_elem_eq_str, ax_into_map_hashmap, ax_string_key_model, vstd::std_specs::hash::group_hash_axioms, crate::p384::ax_asref_encoded_point, crate::generic_array::ax_asref_ga, ax_str_bytes_inj, ax_iter_items_vec, ax_iter_items_copied_slice }
+pub broadcast group group_glue { group_asref_std, lemma_empty_strlit, lemma_dot_strlit, crate::serde_json::ax_json_roundtrip, crate::serde::ax_json_str, crate::serde::ax_json_string, crate::time::ax_rfc3339_text_parses, ax_str_key_removed, ax_str_key_contains, ax_str_key_maps, lemma_utf8_valid, lemma_utf8_inj, ax_into_identity_obeys, ax_into_some_obeys, ax_asref_box, ax_into_identity, ax_into_some, ax_string_view_inj, ax_elem_eq_str, ax_into_map_hashmap, ax_string_key_model, vstd::std_specs::hash::group_hash_axioms, crate::p384::ax_asref_encoded_point, crate::generic_array::ax_asref_ga, ax_str_bytes_inj, ax_iter_items_vec, ax_iter_items_copied_slice }
 
 // ---- external std types ---------------------------------------------------------------------
 #[verifier::external_type_specification]
@@ -58,6 +58,9 @@ pub assume_specification<T: Clone> [<[T]>::to_vec] (s: &[T]) -> (r: Vec<T>)
 pub broadcast proof fn ax_str_bytes_inj(a: &str, b: &str)
     ensures (#[trigger] a.spec_bytes() == #[trigger] b.spec_bytes()) ==> a@ == b@
 { vstd::utf8::encode_utf8_decode_utf8(a@); vstd::utf8::encode_utf8_decode_utf8(b@); }
+// facts about the literals "" and "." that harmless rewrites of the code tend to need (proved)
+pub broadcast proof fn lemma_empty_strlit() ensures (#[trigger] ""@).len() == 0, "".spec_bytes().len() == 0 { reveal_strlit(""); }
+pub broadcast proof fn lemma_dot_strlit() ensures #[trigger] "."@ == seq!['.'] { reveal_strlit("."); assert("."@ =~= seq!['.']); }
 // proved from vstd's UTF-8 library (not assumptions)
 pub broadcast proof fn lemma_utf8_valid(s: Seq<char>) ensures vstd::utf8::valid_utf8(#[trigger] vstd::utf8::encode_utf8(s)) { vstd::utf8::encode_utf8_valid_utf8(s); }
 pub broadcast proof fn lemma_utf8_inj(a: Seq<char>, b: Seq<char>)
